@@ -15,6 +15,7 @@ import (
 	"strings"
 	"unicode/utf8"
 
+	"github.com/ozanh/ugo/internal"
 	"github.com/ozanh/ugo/token"
 )
 
@@ -453,16 +454,29 @@ func builtinRepeatFunc(arg Object, count int) (ret Object, err error) {
 		)
 	}
 
+	tooLarge := func(n int) bool {
+		return n > 0 && count > internal.MaxInt32/n
+	}
+
 	switch v := arg.(type) {
 	case Array:
+		if tooLarge(len(v)) {
+			return nil, errRepeatTooLarge()
+		}
 		out := make(Array, 0, len(v)*count)
 		for i := 0; i < count; i++ {
 			out = append(out, v...)
 		}
 		ret = out
 	case String:
+		if tooLarge(len(v)) {
+			return nil, errRepeatTooLarge()
+		}
 		ret = String(strings.Repeat(string(v), count))
 	case Bytes:
+		if tooLarge(len(v)) {
+			return nil, errRepeatTooLarge()
+		}
 		ret = Bytes(bytes.Repeat(v, count))
 	default:
 		err = NewArgumentTypeError(
@@ -472,6 +486,14 @@ func builtinRepeatFunc(arg Object, count int) (ret Object, err error) {
 		)
 	}
 	return
+}
+
+func errRepeatTooLarge() error {
+	return NewArgumentTypeError(
+		"2nd",
+		"smaller repeat count",
+		"count too large for the length of the 1st argument",
+	)
 }
 
 func builtinContainsFunc(arg0, arg1 Object) (Object, error) {
